@@ -28,6 +28,9 @@ type Start struct {
 	Lists     int    `json:"lists,omitempty"`
 	Footnotes int    `json:"fn,omitempty"`
 	Endnotes  int    `json:"en,omitempty"`
+	// NS: how the numbering / footnotes / endnotes parts bind the WordprocessingML namespace:
+	// "" = prefix w (as the library writes), else one of nsSchemes (see nsrewrite.go)
+	NS string `json:"ns,omitempty"`
 }
 
 var startListTypes = []document.ListType{document.ListTypeBullet, document.ListTypeNumber, document.ListTypeLowerRoman, document.ListTypeUpperLetter}
@@ -164,6 +167,12 @@ func buildStart(s *Start) ([]byte, error) {
 			data = []byte(doc)
 		case "word/styles.xml":
 			data = []byte(sty)
+		case "word/numbering.xml", "word/footnotes.xml", "word/endnotes.xml":
+			if s.NS != "" {
+				if data, err = reprefix(data, s.NS); err != nil {
+					return nil, err
+				}
+			}
 		}
 		w, err := zw.Create(n)
 		if err != nil {
@@ -183,7 +192,7 @@ func (s *Start) sig() string {
 	if s == nil {
 		return "new"
 	}
-	return fmt.Sprintf("start(%s,strip=%v,h=%d,c=%v,q=%v,l=%d,f=%d,e=%d)", s.Scheme, s.Strip, len(s.Headings), s.Custom, s.Quote, s.Lists, s.Footnotes, s.Endnotes)
+	return fmt.Sprintf("start(%s,strip=%v,h=%d,c=%v,q=%v,l=%d,f=%d,e=%d,ns=%s)", s.Scheme, s.Strip, len(s.Headings), s.Custom, s.Quote, s.Lists, s.Footnotes, s.Endnotes, s.NS)
 }
 
 func hasPrefixAny(s string, p ...string) bool {
